@@ -280,6 +280,15 @@ def build_props(ctx, rep, pid, extra_targets=(), timeout=1500):
         rep.axioms[n] = blocks[i] if i < len(blocks) else "?"
     for n in names:
         rep.oblig(n, True)
+    if ctx.thorough:
+        # independent re-check of the compiled theorems and everything they depend on
+        rc3, out3 = sh(["coqchk", "-silent", "-o", "-Q", ".", "Molli", f"Molli.Props.{pid}"], 2400, cwd=COQ)
+        tail = out3[out3.rfind("* Theory"):] if "* Theory" in out3 else out3[-1500:]
+        rep.extra["coqchk"] = {"rc": rc3, "summary": " ".join(tail.split())[:3000]}
+        rep.oblig(f"coqchk:Props.{pid}", rc3 == 0)
+        rep.checker_cmds.append(f"coqchk -silent -o -Q . Molli Molli.Props.{pid}")
+        if rc3 != 0:
+            return False, out3, f"coqchk Props.{pid}"
     return True, out2, None
 
 
